@@ -156,20 +156,33 @@ func runAuth(c Case, tr *Tracer) {
 	var ts2 uint32
 	decerr := err != nil
 	if !decerr {
+		// "transmitted": the receiver decodes from its read buffer, which is reused for the next packet
+		// before the application gets to verify the authenticator
+		rbuf := append([]byte{}, wire...)
 		switch proto {
 		case "cmpp20":
 			var p cmpp20.PduConnect
-			decerr = p.IDecode(wire) != nil
+			decerr = p.IDecode(rbuf) != nil
+			for i := range rbuf {
+				rbuf[i] = 0xAA
+			}
 			acc2, auth2, ts2 = p.SourceAddr, p.AuthenticatorSource, p.Timestamp
 		case "cmpp30":
 			var p cmpp30.Connect
-			decerr = p.IDecode(wire) != nil
+			decerr = p.IDecode(rbuf) != nil
+			for i := range rbuf {
+				rbuf[i] = 0xAA
+			}
 			acc2, auth2, ts2 = p.SourceAddr, p.AuthenticatorSource, p.Timestamp
 		case "smgp30":
 			var p smgp30.Login
-			decerr = p.IDecode(wire) != nil
+			decerr = p.IDecode(rbuf) != nil
+			for i := range rbuf {
+				rbuf[i] = 0xAA
+			}
 			acc2, auth2, ts2 = p.ClientID, p.AuthenticatorClient, p.Timestamp
 		}
+		acc2, auth2 = string(append([]byte{}, acc2...)), string(append([]byte{}, auth2...))
 	}
 	tr.emit(Ev{"ev": "SrvDecode", "decerr": decerr, "account2": S(acc2), "auth2": S(auth2), "ts2": int(ts2), "site": site})
 	if decerr {
@@ -215,19 +228,28 @@ func runAuth(c Case, tr *Tracer) {
 	var st2 []byte
 	decerr = err != nil
 	if !decerr {
+		rbuf2 := append([]byte{}, wire2...)
+		scribble := func() {
+			for i := range rbuf2 {
+				rbuf2[i] = 0xAA
+			}
+		}
 		switch proto {
 		case "cmpp20":
 			var p cmpp20.PduConnectResp
-			decerr = p.IDecode(wire2) != nil
-			resp2, st2 = p.AuthenticatorISMG, []byte{p.Status}
+			decerr = p.IDecode(rbuf2) != nil
+			scribble()
+			resp2, st2 = string(append([]byte{}, p.AuthenticatorISMG...)), []byte{p.Status}
 		case "cmpp30":
 			var p cmpp30.ConnectResp
-			decerr = p.IDecode(wire2) != nil
-			resp2, st2 = p.AuthenticatorISMG, []byte{byte(p.Status >> 24), byte(p.Status >> 16), byte(p.Status >> 8), byte(p.Status)}
+			decerr = p.IDecode(rbuf2) != nil
+			scribble()
+			resp2, st2 = string(append([]byte{}, p.AuthenticatorISMG...)), []byte{byte(p.Status >> 24), byte(p.Status >> 16), byte(p.Status >> 8), byte(p.Status)}
 		case "smgp30":
 			var p smgp30.LoginResp
-			decerr = p.IDecode(wire2) != nil
-			resp2, st2 = p.AuthenticatorServer, []byte{byte(p.Status >> 24), byte(p.Status >> 16), byte(p.Status >> 8), byte(p.Status)}
+			decerr = p.IDecode(rbuf2) != nil
+			scribble()
+			resp2, st2 = string(append([]byte{}, p.AuthenticatorServer...)), []byte{byte(p.Status >> 24), byte(p.Status >> 16), byte(p.Status >> 8), byte(p.Status)}
 		}
 	}
 	tr.emit(Ev{"ev": "CliDecode", "decerr": decerr, "respauth2": S(resp2), "status2": B(st2), "site": site + ".resp"})
